@@ -116,6 +116,11 @@ def entry_points(root):
         return run
     add('fnmatch.fnmatch', mk(lambda p, fl, k: F.fnmatch('zz', p, flags=fl, **k), F.NEGATE, BR))
     add('fnmatch.filter', mk(lambda p, fl, k: F.filter(['zz'], p, flags=fl, **k), F.NEGATE, BR))
+    # nothing to filter: the patterns are counted all the same (an empty list, an empty tuple, an iterator that yields nothing)
+    add('fnmatch.filter([])', mk(lambda p, fl, k: F.filter([], p, flags=fl, **k), F.NEGATE, BR))
+    add('fnmatch.filter(())', mk(lambda p, fl, k: F.filter((), p, flags=fl, **k), F.NEGATE, BR))
+    add('glob.globfilter([])', mk(lambda p, fl, k: G.globfilter([], p, flags=fl, **k), G.NEGATE, BR))
+    add('glob.globfilter(iter(()))', mk(lambda p, fl, k: G.globfilter(iter(()), p, flags=fl, **k), G.NEGATE, BR))
     add('fnmatch.translate', mk(lambda p, fl, k: F.translate(p, flags=fl, **k), F.NEGATE, BR))
     add('fnmatch.compile', mk(lambda p, fl, k: F.compile(p, flags=fl, **k), F.NEGATE, BR))
     add('glob.globmatch', mk(lambda p, fl, k: G.globmatch('zz', p, flags=fl, **k), G.NEGATE, BR))
